@@ -239,6 +239,7 @@ func runC13Case(tier string, seed uint64, idx int, keepDir string) *CaseResult {
 			a.MeasW[i] = float64(r.Range(5, 100)) / 100
 		}
 		a.MeasMode = "1"
+		a.MeasShort = r.Bool(0.4) // the short table without the columns of the deeper layers
 		a.MeasCSV = false
 		b = cloneScenario(a)
 		b.MeasCSV = true
